@@ -2,12 +2,17 @@
 from vf.driver import contract_units
 
 LEVEL = "proof"
-MODULES = ["contracts.c_access", "contracts.c_engine", "contracts.c_request"]
+MODULES = ["contracts.c_access", "contracts.c_engine", "contracts.c_request", "contracts.c_attributes"]
 EXPLANATION = ("The batch loop is proved with trace predicates over an arbitrary iteration (one result "
                "per item echoing operation and id, stop on first failure, no exception once an item was "
                "executed); each handler under contract is proved to have no store effect before it "
                "raises and to commit once after its last effect.")
 
 
+# the attribute handlers are proved for every protocol version x stored class under C15; here the
+# quick tier re-proves them on two slices (KMIP 1.4 and 2.0, first stored class), the thorough tier on all
+QUICK_SLICES = {'protocol-version': [4, 5], 'managed-class': [0]}
+
+
 def units(ctx):
-    return contract_units("C08", MODULES, ctx)
+    return contract_units("C08", MODULES, ctx, slices=QUICK_SLICES if ctx["tier"] == "quick" else None)
